@@ -5,8 +5,17 @@ import json, os, subprocess, sys, tempfile, glob
 V = os.path.dirname(os.path.dirname(os.path.abspath(__file__)))
 repo = "/repo"
 bad = 0
+specs = []
 for f in sorted(glob.glob(os.path.join(V, "variants", "benign", "*.json"))):
-    for sp in json.load(open(f)):
+    specs += json.load(open(f))
+# behaviour-preserving refactorings written by independent authors (DESIGN.md §6, round 5): one diff each
+for f in sorted(glob.glob(os.path.join(V, "variants", "benign", "refactors", "*.diff"))):
+    specs.append({"name": "refactor:" + os.path.basename(f)[:-5], "patch": os.path.relpath(f, V)})
+only = sys.argv[1:]
+for _once in [0]:
+    for sp in specs:
+        if only and not any(o in sp["name"] for o in only):
+            continue
         if sp.get("skip"):
             continue
         overlay, stale = {}, False
